@@ -37,9 +37,12 @@ var testMode = false
 // When discarding a newly added KV in `Cleanup`, the non-persistent flags will be cleared.
 // If there are persistent flags associated with key, we will keep this key in node without value.
 type ART struct {
-	allocator       artAllocator
-	root            artNode
-	stages          []arena.MemDBCheckpoint
+	allocator artAllocator
+	root      artNode
+	stages    []arena.MemDBCheckpoint
+	// lastCheckpoint is the newest checkpoint handed out by Checkpoint(). Values written before it
+	// must not be overwritten in place, otherwise RevertToCheckpoint cannot restore them.
+	lastCheckpoint  *arena.MemDBCheckpoint
 	vlogInvalid     bool
 	dirty           bool
 	entrySizeLimit  uint64
@@ -422,6 +425,9 @@ func (t *ART) trySwapValue(addr arena.MemdbArenaAddr, value []byte) (int, bool) 
 			return len(oldVal), false
 		}
 	}
+	if t.lastCheckpoint != nil && !t.allocator.vlogAllocator.CanModify(t.lastCheckpoint, addr) {
+		return len(oldVal), false
+	}
 	if len(oldVal) > 0 && len(oldVal) == len(value) {
 		copy(oldVal, value)
 		return 0, true
@@ -487,6 +493,8 @@ func (t *ART) IsStaging() bool {
 // Checkpoint returns a checkpoint of ART.
 func (t *ART) Checkpoint() *arena.MemDBCheckpoint {
 	cp := t.allocator.vlogAllocator.Checkpoint()
+	last := cp
+	t.lastCheckpoint = &last
 	return &cp
 }
 
@@ -494,10 +502,19 @@ func (t *ART) Checkpoint() *arena.MemDBCheckpoint {
 func (t *ART) RevertToCheckpoint(cp *arena.MemDBCheckpoint) {
 	t.allocator.vlogAllocator.RevertToCheckpoint(t, cp)
 	t.allocator.vlogAllocator.Truncate(cp)
+	t.clampLastCheckpoint(cp)
 	t.allocator.vlogAllocator.OnMemChange()
 	t.WriteSeqNo++
 	if len(t.stages) == 0 || t.stages[0].LessThan(cp) {
 		t.SnapshotSeqNo++
+	}
+}
+
+// clampLastCheckpoint keeps lastCheckpoint inside the value log after it was truncated to cp.
+func (t *ART) clampLastCheckpoint(cp *arena.MemDBCheckpoint) {
+	if t.lastCheckpoint != nil && cp.LessThan(t.lastCheckpoint) {
+		last := *cp
+		t.lastCheckpoint = &last
 	}
 }
 
@@ -552,6 +569,7 @@ func (t *ART) Cleanup(h int) {
 		if !curr.IsSamePosition(cp) {
 			t.allocator.vlogAllocator.RevertToCheckpoint(t, cp)
 			t.allocator.vlogAllocator.Truncate(cp)
+			t.clampLastCheckpoint(cp)
 		}
 	}
 	t.stages = t.stages[:h-1]
@@ -562,6 +580,7 @@ func (t *ART) Cleanup(h int) {
 func (t *ART) Reset() {
 	t.root = nullArtNode
 	t.stages = t.stages[:0]
+	t.lastCheckpoint = nil
 	t.dirty = false
 	t.vlogInvalid = false
 	t.size = 0
